@@ -157,6 +157,13 @@ def values_equal(a, b):
         if set(a.fields) != set(b.fields):
             return False
         return And([values_equal(a.fields[k], b.fields[k]) for k in sorted(a.fields)])
+    if isinstance(a, sym.SFloat) or isinstance(b, sym.SFloat):
+        if isinstance(a, sym.SFloat):
+            return a.same_as(b)
+        return b.same_as(a)
+    if type(a).__name__ == "SText" or type(b).__name__ == "SText":
+        st, other = (a, b) if type(a).__name__ == "SText" else (b, a)
+        return st.__eq__(other)
     if is_sym(a) or is_sym(b):
         # bool vs int distinction matters in Python (True == 1 but type differs)
         ba = isinstance(a, (bool, SBool))
